@@ -266,7 +266,7 @@ def run_case(ns, ctx, case):
                 viol.append(V("freeze:requires_grad", f"parameter P{pid}.requires_grad={p.requires_grad}, expected {pm['req']} after {after}", trail=trail)); return
             g = p._grad
             state = None if g is None else ("zero" if not np.any(g) else "ones")
-            if state != pm["grad"]:
+            if state != pm["grad"] and not (pm["grad"] == "zero" and state is None):      # a cleared gradient may be zeros or absent
                 viol.append(V("zero_grad:reach", f"parameter P{pid} gradient state {state}, expected {pm['grad']} after {after}", trail=trail)); return
 
     observe("construction")
